@@ -295,6 +295,28 @@ def run(ck, prog, tier, load):
     for b, bb, t in prog.callers(r"^actix_http::h1::dispatcher::InnerDispatcher::send_response_inner$"):
         ok = b.npath.endswith("::send_response") or b.npath.endswith("::send_error_response")
         ck.ob("C02-e.sender-site", b.npath.split("::")[-1], ok, b, bb, "send_response_inner called from %s" % b.npath.split("::")[-1], nontrivial=False)
+    # encoded-but-unflushed bytes are never discarded: what is done to write_buf, and where
+    WB = DF + r"write_buf$"
+    allowed = {
+        "len": None, "is_empty": None, "deref": None, "capacity": None, "reserve": None,
+        "extend_from_slice": ("send_continue", "poll_response"),
+        "advance": ("poll_flush",), "clear": ("poll_flush",),
+        "take": ("upgrade",),  # mem::take(this.write_buf): must flow into the Framed (checked below)
+    }
+    for b, bb, t, m in method_calls_on_field(prog, WB, ["actix_http"]):
+        if not b.file.endswith("h1/dispatcher.rs") or is_noise(b, bb):
+            continue
+        if m in allowed and allowed[m] is None:
+            continue
+        fn = b.npath.split("::")[-1]
+        ok = m in allowed and fn in allowed[m]
+        ck.ob("C02-e.write-buf-effect", "%s|%s" % (fn, m), ok, b, bb, "write_buf.%s in %s (bytes may be appended by the encoder paths and removed only by poll_flush after they were written)" % (m, fn))
+    up = disp(prog, "upgrade")
+    takes = [bb for bb, t in up.calls(r"core::mem::take$") if e_has_field(up.op_expr(t["args"][0]), WB)]
+    fw = [(bb, s) for bb, i, s in up.assigns() if any(isinstance(x, str) and x.endswith("FramedParts.write_buf") for x in s["p"][1:])]
+    fp = [bb for bb, t in up.calls(r"Framed.*::from_parts$")]
+    ok = bool(takes) and bool(fw) and bool(fp) and all(e_calls(up.rv_expr(s["rv"], 4), r"core::mem::take$") and e_has_field(up.rv_expr(s["rv"], 4), WB) for bb, s in fw) and all(any(up.dominates(b1, f) for b1, s in fw) for f in fp)
+    ck.ob("C02-e.upgrade-hands-over-write-buf", "upgrade", ok, up, fp[0] if fp else None, "on upgrade the not-yet-flushed response bytes (write_buf) are moved into the Framed handed to the upgrade service, not dropped")
     # 100 Continue
     n_c = 0
     for b in prog.in_file("actix-http/src/h1/dispatcher.rs"):
